@@ -319,7 +319,7 @@ PROPS['C18'] = dict(
     props='props/C18.v',
     models=['Mux'],
     harness='c18',
-    args=dict(quick=['-split', '60', '-asm', '80', '-conc', '6'], escalated=['-split', '120', '-asm', '200', '-conc', '20'], thorough=['-split', '400', '-asm', '1500', '-conc', '120']),
+    args=dict(quick=['-split', '60', '-asm', '80', '-conc', '6', '-backpressure', '2'], escalated=['-split', '120', '-asm', '200', '-conc', '20', '-backpressure', '4'], thorough=['-split', '400', '-asm', '1500', '-conc', '120', '-backpressure', '20']),
     fingerprint_groups=['Mux'],
     rule='(split) the real packetisation on buffer lengths 0, 1, lim-1, lim, lim+1, 2lim-1 .. 2lim+1 and random, for small limits and for the '
          'real chunk limit, compared with Mux.split; (assembler) random packet sequences over four topics (random EOF marks, empty and short '
@@ -328,7 +328,9 @@ PROPS['C18'] = dict(
          '2-5 goroutines calling MultiConn.Send concurrently, half of them on the SAME topic, with messages of 0, 1, 31, chunk-1, chunk, chunk+1, '
          '2 chunks+17, 3 chunks and random sizes (up to 3 MB); every message delivered to the remote inboxes is matched by topic, length and '
          'SHA-256 against the sent ones; Coq judges the id lists: nothing invented (no truncated or merged message), nothing twice, each '
-         'sender\'s order kept per topic; non-trivial: every case',
+         'sender\'s order kept per topic; (back-pressure) the remote stops reading, the topic\'s send queue is filled up to two free slots, a 5-packet '
+         'message starts queueing and blocks half-way, a 1-packet message is sent on the same topic, the remote reads again: all 1001 '
+         'messages must arrive as sent; non-trivial: every case',
     modelled='hand-modelled: split, Send\'s packet marking, the per-topic send queues and the single sender as an arbitrary order-preserving interleaving, '
              'Stream.handlePacket (assembler, size cap, delivery on EOF). Not modelled: the rate limiter, heartbeats, queue time-outs (a Send that '
              'fails half-way leaves a partial message on the queue: C18_partial_enqueue_merges shows what that would do; the implementation then '
